@@ -195,20 +195,17 @@ impl Node {
 
         // Step 2. Let selectedcontent be the first selectedcontent element descendant of select in tree order
         // if any such element exists; otherwise return null.
-        // FIXME: This does not visit the nodes in tree order
-        let mut remaining = VecDeque::default();
-        remaining.extend(self.children.borrow().iter().cloned());
+        let mut remaining: Vec<Rc<Self>> = self.children.borrow().iter().rev().cloned().collect();
         let mut selectedcontent = None;
-        while let Some(node) = remaining.pop_front() {
-            remaining.extend(node.children.borrow().iter().cloned());
-
-            let NodeData::Element { name, .. } = &self.data else {
-                continue;
-            };
-            if name.local_name() == &local_name!("selectedcontent") {
-                selectedcontent = Some(node);
-                break;
+        while let Some(node) = remaining.pop() {
+            if let NodeData::Element { name, .. } = &node.data {
+                if name.local_name() == &local_name!("selectedcontent") {
+                    selectedcontent = Some(node);
+                    break;
+                }
             }
+            // Depth first, children in order: tree order.
+            remaining.extend(node.children.borrow().iter().rev().cloned());
         }
         let selectedcontent = selectedcontent?;
 
@@ -235,7 +232,18 @@ impl Node {
         }
 
         // Step 3. Replace all with documentFragment within selectedcontent.
-        *selectedcontent.children.borrow_mut() = document_fragment;
+        for child_clone in &document_fragment {
+            child_clone
+                .parent
+                .set(Some(Rc::downgrade(&selectedcontent)));
+        }
+        let old_children = mem::replace(
+            &mut *selectedcontent.children.borrow_mut(),
+            document_fragment,
+        );
+        for old_child in old_children {
+            old_child.parent.set(None);
+        }
     }
 
     /// Clones the node and all of its descendants, returning a handle to the new subtree.
@@ -243,17 +251,32 @@ impl Node {
     /// This function will run into infinite recursion when the DOM tree contains cycles and it makes
     /// no attempts to guard against that.
     fn clone_with_subtree(&self) -> Rc<Self> {
-        let children = self
+        let children: Vec<Rc<Self>> = self
             .children
             .borrow()
             .iter()
             .map(|child| child.clone_with_subtree())
             .collect();
-        Rc::new(Self {
-            parent: Cell::new(self.parent()),
+        let clone = Rc::new(Self {
+            parent: Cell::new(None),
             data: self.data.clone(),
             children: RefCell::new(children),
-        })
+        });
+        for child in clone.children.borrow().iter() {
+            child.parent.set(Some(Rc::downgrade(&clone)));
+        }
+        // `data.clone()` shares the template contents with the original: copy them too.
+        if let NodeData::Element {
+            template_contents, ..
+        } = &clone.data
+        {
+            let copy = template_contents
+                .borrow()
+                .as_ref()
+                .map(|contents| contents.clone_with_subtree());
+            *template_contents.borrow_mut() = copy;
+        }
+        clone
     }
 }
 
